@@ -286,7 +286,9 @@ Record block_layout (kvs : list (bytes * bytes)) (b : block) (off : nat -> N) (r
   lay_roff : forall r, (r < length ris)%nat ->
       restart_offset b (N.of_nat r) = Some (off (nth r ris 0%nat));
   lay_rkey : forall r, (r < length ris)%nat ->
-      exists k, restart_key b (N.of_nat r) = Some k /\ (kvs <> [] -> k = key_at kvs (nth r ris 0%nat))
+      exists k, restart_key b (N.of_nat r) = Some k /\ (kvs <> [] -> k = key_at kvs (nth r ris 0%nat));
+  (* one past the restart array is the restart count (block.seek reads it for an empty restart range) *)
+  lay_count : restart_offset b (lenN ris) = Some (lenN ris)
 }.
 
 Lemma lenN_map {A B} (f : A -> B) l : lenN (map f l) = lenN l.
@@ -609,6 +611,18 @@ Section Build.
       apply sliceN_app3.
   Qed.
 
+  Lemma built_count : restart_offset built (lenN b_ris) = Some (lenN b_ris).
+  Proof.
+    pose proof ris_small as Hs. pose proof build_length as HL.
+    unfold restart_offset, built. cbn [b_roff b_data].
+    replace (lenN (block_build ri kvs) <? lenN (enc_entries ri 0 [] kvs) + 4 * lenN b_ris + 4) with false by lia.
+    rewrite block_build_eq at 1.
+    rewrite <- N.add_assoc, sliceN_app_r.
+    unfold lenN at 1 2. rewrite (flat_le32_slice _ (length b_ris) (lenN b_ris)).
+    - f_equal. apply le32_decode. lia.
+    - rewrite nth_error_app2 by (rewrite map_length; lia). rewrite map_length, Nat.sub_diag. reflexivity.
+  Qed.
+
   Theorem build_layout : block_layout kvs built b_off b_ris.
   Proof.
     constructor.
@@ -625,5 +639,6 @@ Section Build.
     - intros Hne r Hr. apply (b_ris_in _ Hne). apply nth_In. exact Hr.
     - apply built_roff.
     - apply built_rkey.
+    - apply built_count.
   Qed.
 End Build.
